@@ -33,8 +33,10 @@ type mapDecoder struct {
 
 func (valdec mapDecoder) canDecodeListAsMap() bool {
 	switch valdec.kt.Kind() {
+	case reflect.Interface:
+		// the index is stored as an interface{}: only that layout fits
+		return valdec.kt.Type1() == interfaceType
 	case reflect.String,
-		reflect.Interface,
 		reflect.Int,
 		reflect.Int8,
 		reflect.Int16,
@@ -95,13 +97,10 @@ func (valdec mapDecoder) convertKey(i int, p unsafe.Pointer) {
 }
 
 func (valdec mapDecoder) canDecodeObjectAsMap() bool {
-	ktKind := valdec.kt.Kind()
-	vtKind := valdec.vt.Kind()
-	if (ktKind == reflect.String || ktKind == reflect.Interface) &&
-		(vtKind == reflect.Interface) {
-		return true
-	}
-	return false
+	// names and values are stored as string / interface{}: an interface type
+	// with methods has another layout
+	kt := valdec.kt.Type1()
+	return (kt.Kind() == reflect.String || kt == interfaceType) && valdec.vt.Type1() == interfaceType
 }
 
 // setNamedEntry stores v under a field name. The key type is string or
